@@ -5,6 +5,9 @@ ROOT = os.path.dirname(os.path.dirname(os.path.abspath(__file__)))
 CORE, BIN, PY3, BS, EXPR, CONT = 'construct/core.py', 'construct/lib/binary.py', 'construct/lib/py3compat.py', 'construct/lib/bitstream.py', 'construct/expr.py', 'construct/lib/containers.py'
 MUTANTS = [
     # id, property, file, old, new
+    ('select-parse-no-seek-back', 'C09', CORE, "            except Exception:\n                stream_seek(stream, fallback, 0, path)\n            else:\n                return obj\n        raise SelectError(\"no subconstruct matched\", path=path)", "            except Exception:\n                pass\n            else:\n                return obj\n        raise SelectError(\"no subconstruct matched\", path=path)"),
+    ('greedyrange-no-seek-back', 'C09', CORE, "            if fallback is None:\n                raise\n            stream_seek(stream, fallback, 0, path)\n        return obj", "            if fallback is None:\n                raise\n        return obj"),
+    ('greedyrange-fallback-after-parse', 'C09', CORE, "                fallback = stream_tell(stream, path)\n                e = self.subcon._parsereport(stream, context, path)\n                if not discard:\n                    obj.append(e)\n        except StopFieldError:", "                e = self.subcon._parsereport(stream, context, path)\n                fallback = stream_tell(stream, path)\n                if not discard:\n                    obj.append(e)\n        except StopFieldError:"),
     ('array-parse-index-off', 'C07', CORE, "        for i in range(count):\n            context._index = i\n            e = self.subcon._parsereport(stream, context, path)", "        for i in range(count):\n            context._index = i + 1\n            e = self.subcon._parsereport(stream, context, path)"),
     ('array-parse-count-off', 'C03', CORE, "        obj = ListContainer()\n        for i in range(count):\n            context._index = i\n            e = self.subcon._parsereport(stream, context, path)", "        obj = ListContainer()\n        for i in range(count + 1):\n            context._index = i\n            e = self.subcon._parsereport(stream, context, path)"),
     ('array-build-len-check', 'C03', CORE, "        if not len(obj) == count:\n            raise RangeError(\"expected %d elements, found %d\" % (count, len(obj)), path=path)\n        discard = self.discard\n        retlist = ListContainer()\n        for i,e in enumerate(obj):\n            context._index = i\n            buildret = self.subcon._build(e, stream, context, path)\n            if not discard:\n                retlist.append(buildret)\n        return retlist\n\n    def _sizeof(self, context, path):\n        try:\n            count = evaluate(self.count, context)\n        except (KeyError, AttributeError):",
